@@ -117,6 +117,10 @@ func TestMakeReplays(t *testing.T) {
 	write("C16", "c16", "newline-between-words", "select *\\nwhere\\nkey was lexed with where\\nkey as one name", &c16Case{Query: "select *\nwhere\nkey = 'a'"})
 	write("C16", "c16", "non-utf8-byte-in-word", "a\\xff was turned into a + U+FFFD (four bytes for two)", &c16Case{Query: "a\xff = 1"})
 
+	// ---- follow-ups found by the review of the repair commits ---------------------------
+	fwd := &lib.Stmt{Kind: "select", Fields: []lib.SelField{{E: lib.Ref("m", lib.TyInt), Alias: "p"}, {E: lib.Ref("n", lib.TyInt), Alias: "m"}, {E: lib.Call("int", lib.Value()), Alias: "n"}}, Where: lib.Bin("^=", lib.Key(), lib.Str("a"))}
+	write("C05", "c05", "name-chain-listed-backwards", "select m as p, n as m, int(value) as n showed the text n in column p", &c05Case{Stmt: fwd, Pairs: abc, Batch: 2})
+
 	write("C03", "c03", "limit-skip-boundary", "limit 2,2 with batch size 2 returned rows 0-1", &c03Case{Stmt: &lib.Stmt{Kind: "select", Star: true, Where: lib.Bin("!=", lib.Key(), lib.Str("zz")), Lim: &lib.Limit{Start: 2, Count: 2, Two: true}}, Pairs: abc, Batch: 2, Batch2: 32})
 	write("C03", "c03", "in-split-row", "'1' in split(value, ',') failed row at a time only", &c03Case{Stmt: &lib.Stmt{Kind: "select", Fields: []lib.SelField{{E: lib.Key()}, {E: lib.Call("split", lib.Value(), lib.Str(","))}}, Where: lib.InList(lib.Str("1"), lib.Call("split", lib.Value(), lib.Str(",")))}, Pairs: abc, Batch: 2, Batch2: 32})
 	write("C03", "c03", "list-index-row", "list(1,2,3)[1] failed row at a time only", &c03Case{Stmt: &lib.Stmt{Kind: "select", Fields: []lib.SelField{{E: lib.Index(lib.Call("list", lib.Int(1), lib.Int(2), lib.Int(3)), 1)}}, Where: lib.Bin("^=", lib.Key(), lib.Str("a"))}, Pairs: abc, Batch: 2, Batch2: 32})
